@@ -45,20 +45,22 @@ Definition ends_with (cfg : config) (sched : list tid) (root_status : status) (c
 
 (** Non-vacuity: the 2-cycle configuration (limit 1) has a schedule that ends quiescent, with the root Failed,
     Run returning that failure, target 0 having been handed a Cyclic result, and the gate full again. *)
+Definition cycle2_sched : list tid := Eval vm_compute in auto_sched (cycle2 1) 200 (init (cycle2 1)).
+
 Example cycle2_has_failing_schedule :
   exists sched s, run (cycle2 1) (init (cycle2 1)) sched = Some s /\ finished s = true /\
                   st s 0 = Failed EDepFailed /\ mainpc s = MDone (Failed EDepFailed) /\ has_cyc s 0 = true /\
                   cap s = 1.
 Proof.
-  pose (sched := auto_sched (cycle2 1) 200 (init (cycle2 1))).
-  assert (H : ends_with (cycle2 1) sched (Failed EDepFailed) (Some 0) = true) by (vm_compute; reflexivity).
-  unfold ends_with in H. destruct (run (cycle2 1) (init (cycle2 1)) sched) as [s|] eqn:E; [|discriminate].
-  exists sched, s. split; [exact E|].
-  repeat (apply andb_true_iff in H; destruct H as [H ?]).
-  repeat split; auto.
-  - destruct (st s 0) as [| | |[]]; try discriminate; reflexivity.
-  - simpl in *. destruct (mainpc s) as [| |[| | |[]]]; try discriminate; reflexivity.
-  - apply Nat.eqb_eq. assumption.
+  assert (H : ends_with (cycle2 1) cycle2_sched (Failed EDepFailed) (Some 0) = true) by (vm_compute; reflexivity).
+  unfold ends_with in H. destruct (run (cycle2 1) (init (cycle2 1)) cycle2_sched) as [s|] eqn:E; [|discriminate].
+  exists cycle2_sched, s. split; [exact E|]. clear E.
+  apply andb_true_iff in H. destruct H as [H H5]. apply andb_true_iff in H. destruct H as [H H4].
+  apply andb_true_iff in H. destruct H as [H H3]. apply andb_true_iff in H. destruct H as [H1 H2].
+  change (c_root (cycle2 1)) with 0 in H2. change (c_limit (cycle2 1)) with 1 in H5.
+  split; [exact H1|split; [|split; [|split; [exact H4|apply Nat.eqb_eq; exact H5]]]].
+  - destruct (st s 0) as [| | |[]]; try discriminate H2; reflexivity.
+  - destruct (mainpc s) as [| |[| | |[]]]; try discriminate H3; reflexivity.
 Qed.
 
 (* the self-loop: the root itself is handed the Cyclic result *)
@@ -143,3 +145,34 @@ Definition explore_all (cfg : config) (ls : list label) (expect : state -> bool)
 Definition root_failed_and_cyc (cfg : config) (ls : list label) (s : state) : bool :=
   is_failed (st s (c_root cfg)) && existsb (has_cyc s) ls && Nat.eqb (cap s) (c_limit cfg).
 
+
+Definition explore_fuel : nat := 400 * 400.
+Definition inner_cycle : config := mkConfig 0 [(0, [1]); (1, [2]); (2, [1])] [] [] 2.
+
+(** TEST (exhaustive over ALL schedules of these tiny configurations, by vm_compute): every reachable state
+    conserves slots and respects the limit, every state without an enabled thread is quiescent, and in every
+    such final state the root has Failed, some target holds a Cyclic result and the gate is full.
+    The three components are (all states ok, number of distinct states, state space exhausted). *)
+Example test_all_schedules_cycle2_limit1 :
+  explore_all (cycle2 1) [0; 1] (root_failed_and_cyc (cycle2 1) [0; 1]) explore_fuel = (true, 134, true).
+Proof. vm_compute. reflexivity. Qed.
+
+Example test_all_schedules_cycle2_limit2 :
+  explore_all (cycle2 2) [0; 1] (root_failed_and_cyc (cycle2 2) [0; 1]) explore_fuel = (true, 160, true).
+Proof. vm_compute. reflexivity. Qed.
+
+Example test_all_schedules_selfloop :
+  explore_all selfloop [0] (root_failed_and_cyc selfloop [0]) explore_fuel = (true, 15, true).
+Proof. vm_compute. reflexivity. Qed.
+
+Example test_all_schedules_inner_cycle_limit2 :
+  explore_all inner_cycle [0; 1; 2] (root_failed_and_cyc inner_cycle [0; 1; 2]) explore_fuel = (true, 1092, true).
+Proof. vm_compute. reflexivity. Qed.
+
+(* an acyclic configuration with a failing leaf, limit 1: every final state has the root Failed (DepFailed),
+   no Cyclic result anywhere, and the gate full *)
+Example test_all_schedules_fan_fail_limit1 :
+  explore_all fan_fail [0; 1; 2]
+              (fun s => status_eqb (st s 0) (Failed EDepFailed) && negb (existsb (has_cyc s) [0; 1; 2]) &&
+                        Nat.eqb (cap s) 1) explore_fuel = (true, 342, true).
+Proof. vm_compute. reflexivity. Qed.
